@@ -102,7 +102,9 @@ def compare(a, b, mapped, where, out):
   """NaN-aware structural comparison with exact types. Appends
   (clause, detail) with clause 'type-differs' or 'not-equal'."""
   ta, tb = type(a), type(b)
-  if mapped:
+  if mapped and tb is not ta:
+    # from_json maps dict/list to pg.Dict/pg.List (documented); a plain
+    # container restored from a spec default may also stay plain.
     ta = pg.Dict if ta is dict else (pg.List if ta is list else ta)
   if ta is not tb:
     out.append(('type-differs', f'at {where or "<root>"}: {type(a).__name__} came back as '
@@ -183,13 +185,36 @@ def check(codec, d, family, c=None, variant=0, wseed=0):
   count = (lambda n: None) if c is None else (lambda n: c.update([n]))
   v = S.build(d)
   mapped = codec in ('json', 'json-str')
+  nan = S.has_nan(d)
+  # The laws compare the restored value with the original by pg.eq / pg.hash.
+  # Where two identical constructions are not equal (or hash differently) to
+  # begin with, equality (hashing) of that value is not something a codec can
+  # preserve: C04/C06 territory, not judged here.
+  twin = S.build(d)
+  hash_defined = not nan and not S.hash_undefined(d)
+  if not nan:
+    diffs = []
+    compare(v, twin, False, '', diffs)
+    try:
+      same = not diffs and pg.eq(v, twin) and pg.eq(twin, v)
+    except Exception:  # pylint: disable=broad-except
+      same = False
+    if not same:
+      count('skipped_equality_not_reflexive_on_rebuild')
+      return []
+    if hash_defined:
+      try:
+        hash_defined = pg.hash(v) == pg.hash(twin)
+      except TypeError:
+        pass
+      if not hash_defined:
+        count('hash_skipped_differs_on_rebuild')
   count('roundtrips')
   try:
     back = run_codec(codec, v, d, variant)
   except Exception as e:  # pylint: disable=broad-except
     return [('roundtrip-raises', f'{type(e).__name__}: {e!s:.300}')]
   problems = []
-  nan = S.has_nan(d)
   partial = S.is_partial(d)
   # -- equality and type -------------------------------------------------------
   count('type_checks')
@@ -205,7 +230,7 @@ def check(codec, d, family, c=None, variant=0, wseed=0):
   if problems:
     return problems[:1]
   # -- hash ----------------------------------------------------------------------
-  if not nan and not S.hash_undefined(d):
+  if hash_defined:
     try:
       h = pg.hash(v)
     except TypeError:
@@ -248,8 +273,12 @@ def check(codec, d, family, c=None, variant=0, wseed=0):
         wr.shuffle(targets)
         done = 0
         for keys, k, spec in targets[:6]:
-          bad = V.invalid_for(spec, wr)
-          if V._accepts(spec, bad):           # pylint: disable=protected-access
+          try:
+            bad = V.invalid_for(spec, wr)
+            if V._accepts(spec, bad):         # pylint: disable=protected-access
+              continue
+          except Exception:  # pylint: disable=broad-except
+            count('invalid_value_generator_failed')
             continue
           if not try_write(S.build(d), keys, k, bad):
             count('invalid_write_accepted_by_original')
